@@ -116,8 +116,9 @@ def gen_bundles(rng):
         # schema-level state: a directive on the schema definition / non-introspectable schema, for SOME bundles only
         if rng.random() < 0.4:
             m.schema_directives = [("audit", [])]
-        if rng.random() < 0.15:
+        if rng.random() < 0.35:
             m.non_introspectable = True
+        m.annotating_coercer = rng.random() < 0.35     # this bundle's engine writes into the errors it is handed
         for t in m.types.values():
             if rng.random() < 0.35:
                 t.directives.append(("note", []))
@@ -177,6 +178,15 @@ async def answer(bundle, s, label, probes, sub):
     w.label, w.marks = label, []
     r = await e.execute("{ vtModField }", context={"world": w})
     out.append({"module_field": r, "marks": w.marks})
+    # introspection root fields under aliases and at positions that differ from bundle to bundle, and documents the
+    # validation rules refuse (their errors carry rule-level extensions): errors must be this engine's own
+    pad = " " * (1 + len(label) + sum(map(ord, label)) % 7)
+    for q in ("{%si_%s: __schema { queryType { name } } }" % (pad, label),
+              "{%st_%s: __type(name: \"%s\") { name kind } }" % (pad, label, s.query),
+              "{%snoSuchField_%s }" % (pad, label),
+              "{%s__typename(bogus_%s: 1) }" % (pad, label)):
+        r = await e.execute(q, context={"world": world_mod.World(s, 7)})
+        out.append({"probe": q, "response": r})
     r = await e.execute(sdlgen.INTROSPECTION_QUERY)
     types = sorted((r.get("data") or {}).get("__schema", {}).get("types", []), key=lambda t: t["name"])
     for t in types:
@@ -188,9 +198,23 @@ async def answer(bundle, s, label, probes, sub):
     return json.loads(X.jdump(out)), anomalies
 
 
+def label_coercer(label):
+    async def annotating_error_coercer(exception, error):
+        """Written like the documentation's example: annotates the error (and its extensions) in place."""
+        if isinstance(error.get("extensions"), dict):
+            error["extensions"]["by"] = label
+        error["by"] = label
+        return error
+    return annotating_error_coercer
+
+
 def make_bundle(label, m):
     # the same user module with the same config for every bundle (its bake() registers per schema name)
-    b = harness.Bundle(m, label=label, sdl=getattr(m, "sdl_text", None), name_prefix="c17", modules=[{"name": "vt.c17mod", "config": {"root": m.query}}])
+    opts = {}
+    if getattr(m, "annotating_coercer", False):
+        opts["error_coercer"] = label_coercer(label)
+    b = harness.Bundle(m, label=label, sdl=getattr(m, "sdl_text", None), name_prefix="c17", modules=[{"name": "vt.c17mod", "config": {"root": m.query}}],
+                       **opts)
     return b
 
 
@@ -277,6 +301,11 @@ async def run_case(ctx, rng, index):
             rng2.shuffle(cook_order)
         interleave = rng2.random() < 0.5
         bs = {v: make_bundle(*bundles[v]) for v in range(k)}
+        for v in range(k):
+            if rng2.random() < 0.3:
+                # constructed under ANOTHER bundle's schema name, cooked under its own: cook(schema_name=) decides
+                bs[v].ctor_name = bs[rng2.choice([u for u in range(k) if u != v])].name
+                st.inc("bundles_constructed_under_a_foreign_name")
         c2 = dict(case, registration_order=list(reg_order), cook_order=cook_order, interleaved=interleave)
         try:
             cooked = []
